@@ -570,6 +570,19 @@ func checkWrap(c wrapCase) *vlib.Failure {
 			}
 		}
 	}
+	// and a probability written into it is stored as the nearest Phred score whatever the encoding
+	if a := -10 * math.Log10(p); a <= 253 {
+		pos := c.Offset + c.SetPos
+		keep := ls.At(pos)
+		for _, enc := range []alphabet.Encoding{alphabet.Solexa, alphabet.None} {
+			ls.SetEncoding(enc)
+			ls.SetE(pos, p)
+			if math.Abs(float64(ls.At(pos).Q)-a) > roundTol {
+				return vlib.Failf("wrap-sete", "linear.QSeq under the encoding %s: SetE(%g) stored %d, analytic %.4f", encNames[enc], p, ls.At(pos).Q, a)
+			}
+			ls.Set(pos, keep)
+		}
+	}
 	ls.SetEncoding(e2)
 	pos := c.Offset + c.SetPos
 	q.SetE(pos, p)
